@@ -21,6 +21,7 @@
 #include <memory>
 #include <functional>
 #include <signal.h>
+#include <time.h>
 #include <unistd.h>
 
 using namespace sim;
@@ -116,7 +117,7 @@ Model buildModel(const Script& s) {
         } else if (k == "characters" || k == "cdata" || k == "ignorableWhitespace") {
             if (open.empty()) continue;
             Feed f; f.text = e.text;
-            if (k == "ignorableWhitespace") { XS w; for (auto c : e.text) if (isXmlWs(c)) w += c; f.text = w; f.k = F_IW; }
+            if (k == "ignorableWhitespace" && !cd.count(open.back())) { XS w; for (auto c : e.text) if (isXmlWs(c)) w += c; f.text = w; f.k = F_IW; }
             else f.k = (k == "cdata" || cd.count(open.back())) ? F_CD : F_CH;
             m.evCdata[evi] = f.k == F_CD;
             if (f.text.empty()) continue;
@@ -303,9 +304,8 @@ Out runCfg(const Script& s, const Model& m, const Cfg& c, const SinkFault& fault
             XSLTInputSource din(&dis, mm), sin(&sis, mm);
             din.setSystemId(XalanDOMString((std::string(SIM_BASE) + "doc.xml").c_str(), mm).c_str()); sin.setSystemId(XalanDOMString((std::string(SIM_BASE) + "ss.xsl").c_str(), mm).c_str());
             int st;
-            if (c.form == "stream") { SinkXalanOutputStream os(sink, mm, c.b, c.t); XalanOutputStreamPrintWriter pw(os); XSLTResultTarget rt(&pw, mm); st = T.transform(din, sin, rt); }
-            else st = T.transform(din, sin, &sink, sinkCallback, sinkFlushCallback);
-            o.writesAtEnd = sink.writes; o.flushesAtEnd = sink.flushes;
+            if (c.form == "stream") { SinkXalanOutputStream os(sink, mm, c.b, c.t); XalanOutputStreamPrintWriter pw(os); XSLTResultTarget rt(&pw, mm); st = T.transform(din, sin, rt); o.writesAtEnd = sink.writes; o.flushesAtEnd = sink.flushes; }
+            else { st = T.transform(din, sin, &sink, sinkCallback, sinkFlushCallback); o.writesAtEnd = sink.writes; o.flushesAtEnd = sink.flushes; }
             if (st != 0) { o.threw = true; o.excType = "status"; const char* e = T.getLastError(); o.excMsg = e ? e : ""; }
         });
     } else {
@@ -438,16 +438,18 @@ FindingP finding(const std::string& c, const std::string& x, const std::string& 
 std::string baseClass(const std::string& c) { return c.compare(0, 15, "error-expected:") == 0 ? c.substr(15) : c; }
 
 uint64_t g_serializerRuns = 0, g_parses = 0;
+struct Prof { const char* n; uint64_t& acc; timespec t0; Prof(const char* name, uint64_t& a) : n(name), acc(a) { clock_gettime(CLOCK_MONOTONIC, &t0); } ~Prof() { timespec t1; clock_gettime(CLOCK_MONOTONIC, &t1); acc += (uint64_t)((t1.tv_sec - t0.tv_sec) * 1000000000LL + (t1.tv_nsec - t0.tv_nsec)); } };
+uint64_t g_nsRun = 0, g_nsParse = 0, g_nsModel = 0, g_nsPipe = 0;
 
 struct Eval {
     const Script& s; Model m; EncInfo& enc; bool v11; Repr repr;
     std::map<std::string, Out> outs; std::map<std::string, Parsed> parsed;
     explicit Eval(const Script& sc) : s(sc), m(buildModel(sc)), enc(encInfo(sc.encoding)), v11(sc.version == "1.1"), repr(representable(m, v11, enc)) {}
-    const Out& out(const Cfg& c) { std::string k = c.key(false); auto it = outs.find(k); if (it != outs.end()) return it->second; ++g_serializerRuns; return outs[k] = runCfg(s, m, c, SinkFault()); }
+    const Out& out(const Cfg& c) { std::string k = c.key(false); auto it = outs.find(k); if (it != outs.end()) return it->second; ++g_serializerRuns; Prof pf("run", c.ser == "pipeline" ? g_nsPipe : g_nsRun); return outs[k] = runCfg(s, m, c, SinkFault()); }
     const Parsed& parse(const Cfg& c) {
         const Out& o = out(c); std::string k = c.key(false); auto it = parsed.find(k); if (it != parsed.end()) return it->second;
         for (auto& kv : outs) if (kv.first != k && kv.second.bytes == o.bytes && parsed.count(kv.first)) return parsed[k] = parsed[kv.first];
-        ++g_parses; return parsed[k] = parseBytes(o.bytes);
+        ++g_parses; Prof pf("parse", g_nsParse); return parsed[k] = parseBytes(o.bytes);
     }
     std::string family(const Cfg& c) const { return c.ser == "factory" ? enc.family : c.ser; }
 };
@@ -476,7 +478,7 @@ FindingP probeSingle(Eval& ev, const Cfg& c) {
 }
 // oracle 3
 FindingP probeKnob(Eval& ev, const Cfg& a, const Cfg& b) {
-    const Out& x = ev.out(a); const Out& y = ev.out(b); if (x.skipped || y.skipped) return nullptr;
+    const Out& x = ev.out(a); const Out& y = ev.out(b); if (x.skipped || y.skipped || runaway(x) || runaway(y)) return nullptr;
     if (x.threw != y.threw) return finding("knob-dependent", "outcome", "[" + a.key() + "] " + (x.threw ? "failed with " + excName(x) : "succeeded") + " but [" + b.key() + "] " + (y.threw ? "failed with " + excName(y) : "succeeded"));
     if (x.threw) return nullptr;
     if (x.bytes != y.bytes) { size_t i = 0; while (i < x.bytes.size() && i < y.bytes.size() && x.bytes[i] == y.bytes[i]) ++i;
@@ -515,8 +517,8 @@ FindingP probeFault(Eval& ev, const Cfg& c, Out* faultedOut = nullptr) {
 // The signature names what is *essential* for the finding: (construct, character class) pairs that cannot be replaced by
 // plain ASCII without losing it, and the XML version only if the other version does not show it.  It is computed from the
 // script alone, so the full plan and every reduced plan of the same finding get the same signature.
-enum CK { K_NAME, K_ATTR, K_TEXT, K_CDATA, K_COMMENT, K_PI, K_N };
-static const char* const CK_NAME[K_N] = { "name", "attr", "text", "cdata", "comment", "pi" };
+enum CK { K_NAME, K_ATTR, K_TEXT, K_CDATA, K_LITERAL, K_N };   // literal: comment and PI data, written verbatim by one routine
+static const char* const CK_NAME[K_N] = { "name", "attr", "text", "cdata", "literal" };
 template <class F> void forEachString(Script& s, const std::vector<bool>& evCdata, F fn) {
     for (auto& n : s.cdataElems) fn(n, K_NAME);
     for (size_t i = 0; i < s.ev.size(); ++i) {
@@ -524,23 +526,30 @@ template <class F> void forEachString(Script& s, const std::vector<bool>& evCdat
         if (e.kind == "startElement") { fn(e.name, K_NAME); for (auto& a : e.attrs) { fn(a.name, K_NAME); fn(a.value, K_ATTR); } }
         else if (e.kind == "characters" || e.kind == "ignorableWhitespace") fn(e.text, i < evCdata.size() && evCdata[i] ? K_CDATA : K_TEXT);
         else if (e.kind == "cdata") fn(e.text, K_CDATA);
-        else if (e.kind == "comment") fn(e.text, K_COMMENT);
-        else if (e.kind == "pi") { fn(e.target, K_NAME); fn(e.text, K_PI); }
+        else if (e.kind == "comment") fn(e.text, K_LITERAL);
+        else if (e.kind == "pi") { fn(e.target, K_NAME); fn(e.text, K_LITERAL); }
     }
 }
-struct PairMask { uint32_t m[K_N] = { 0, 0, 0, 0, 0, 0 }; };
-PairMask pairsOf(const Script& s) {
-    PairMask pm; Script& w = const_cast<Script&>(s); Model m = buildModel(s); EncInfo& enc = encInfo(s.encoding); bool v11 = s.version == "1.1";
-    forEachString(w, m.evCdata, [&](XS& x, CK k) { pm.m[k] |= sigMask(x, enc, v11); });
+struct PairMask { uint32_t m[K_N] = { 0, 0, 0, 0, 0 }; };
+PairMask pairsOf(const Script& s, const std::vector<bool>& evCdata) {
+    PairMask pm; Script& w = const_cast<Script&>(s); EncInfo& enc = encInfo(s.encoding); bool v11 = s.version == "1.1";
+    forEachString(w, evCdata, [&](XS& x, CK k) { pm.m[k] |= sigMask(x, enc, v11); });
     return pm;
 }
-std::string pairNames(const PairMask& pm) {
-    std::string r; for (int k = 0; k < K_N; ++k) for (int c = 1; c < S_N; ++c) if (pm.m[k] & (1u << c)) { if (!r.empty()) r += "+"; r += std::string(CK_NAME[k]) + "." + SCLS_NAME[c]; }
+std::string pairNames(const PairMask& pm, bool withConstruct) {
+    std::string r;
+    // characters XML forbids everywhere (U+0000, lone surrogates, U+FFFE/FFFF) are named without the construct they sit in
+    const uint32_t everywhere = (1u << S_NUL) | (1u << S_SURR) | (1u << S_NONCHAR);
+    if (withConstruct) {
+        for (int k = 0; k < K_N; ++k) for (int c = 1; c < S_N; ++c) if ((pm.m[k] & (1u << c)) && !(everywhere & (1u << c))) { if (!r.empty()) r += "+"; r += std::string(CK_NAME[k]) + "." + SCLS_NAME[c]; }
+        uint32_t u = 0; for (int k = 0; k < K_N; ++k) u |= pm.m[k]; for (int c = 1; c < S_N; ++c) if (u & everywhere & (1u << c)) { if (!r.empty()) r += "+"; r += SCLS_NAME[c]; }
+    }
+    else { uint32_t u = 0; for (int k = 0; k < K_N; ++k) u |= pm.m[k]; for (int c = 1; c < S_N; ++c) if (u & (1u << c)) { if (!r.empty()) r += "+"; r += SCLS_NAME[c]; } }
     return r.empty() ? "any" : r;
 }
-Script replacePair(const Script& s, int k, int c) {
-    Script r = s; Model m = buildModel(s); EncInfo& enc = encInfo(s.encoding); bool v11 = s.version == "1.1";
-    forEachString(r, m.evCdata, [&](XS& x, CK kk) { if (kk == k) x = replaceSigClass(x, c, enc, v11); });
+Script replacePair(const Script& s, const std::vector<bool>& evCdata, int k, int c) {
+    Script r = s; EncInfo& enc = encInfo(s.encoding); bool v11 = s.version == "1.1";
+    forEachString(r, evCdata, [&](XS& x, CK kk) { if (kk == k) x = replaceSigClass(x, c, enc, v11); });
     return r;
 }
 
@@ -556,15 +565,25 @@ Sig sigOf(const Script& s, const Probe& pr, bool wantClasses) {
     if (!wantClasses) return r;
     const std::string base = baseClass(f0->cls);
     auto same = [&](const FindingP& f) { return f && baseClass(f->cls) == base && f->extra == r.extra; };
-    // is the version essential?
-    { Script o = s; o.version = s.version == "1.1" ? "1.0" : "1.1"; if (same(probeOn(o, pr))) { r.ver = "1.x"; r.reduced.version = "1.0"; } }
-    for (int k = 0; k < K_N; ++k) for (int c = 1; c < S_N; ++c) {
-        if (!(pairsOf(r.reduced).m[k] & (1u << c))) continue;
-        Script cand = replacePair(r.reduced, k, c);
-        if (same(probeOn(cand, pr))) r.reduced = cand;
-    }
-    FindingP fin = probeOn(r.reduced, pr); if (fin) { r.cls = fin->cls; r.detail = fin->detail; }
-    r.pairs = pairNames(pairsOf(r.reduced));
+    std::vector<bool> evCdata = buildModel(r.reduced).evCdata;     // replacing characters does not change which text goes through cdata()
+    PairMask pm = pairsOf(r.reduced, evCdata); bool changed = false;
+    auto reduce = [&]() {      // to a fixpoint: a pair that was needed while others were still present may not be needed afterwards
+        for (int pass = 0; pass < 4; ++pass) {
+            bool progress = false;
+            for (int k = 0; k < K_N; ++k) for (int c = 1; c < S_N; ++c) {
+                if (!(pm.m[k] & (1u << c))) continue;
+                Script cand = replacePair(r.reduced, evCdata, k, c);
+                if (same(probeOn(cand, pr))) { r.reduced = cand; pm.m[k] &= ~(1u << c); changed = progress = true; }
+            }
+            if (!progress) break;
+        }
+    };
+    reduce();
+    // is the version essential?  (asked of the reduced script, where nothing unrelated can mask the answer)
+    { Script o = r.reduced; o.version = s.version == "1.1" ? "1.0" : "1.1";
+      if (same(probeOn(o, pr))) { r.ver = "1.x"; if (r.reduced.version != "1.0") { r.reduced.version = "1.0"; changed = true; pm = pairsOf(r.reduced, evCdata); reduce(); } } }
+    if (changed) { FindingP fin = probeOn(r.reduced, pr); if (fin) { r.cls = fin->cls; r.detail = fin->detail; } }
+    r.pairs = pairNames(pm, r.cls != "serializers-disagree");
     return r;
 }
 
@@ -593,7 +612,7 @@ Script minimise(const Script& start, const Probe& pr, const std::string& want, b
     for (size_t e = 0; e < cur.ev.size() && budget > 0; ++e) {
         shrinkStr([e](Script& s) -> XS& { return s.ev[e].text; });
         for (size_t a = 0; a < cur.ev[e].attrs.size() && budget > 0; ++a) shrinkStr([e, a](Script& s) -> XS& { return s.ev[e].attrs[a].value; });
-        if (cur.ev[e].kind == "startElement" && cur.ev[e].name.size() > 1 && budget > 0) { Script c = cur; c.ev[e].name = ascii("e"); if (ok(c)) cur = c; }
+        if (cur.ev[e].kind == "startElement" && cur.ev[e].name.size() > 1 && budget > 0) { Script c = cur; for (auto& n : c.cdataElems) if (n == c.ev[e].name) n = ascii("e"); c.ev[e].name = ascii("e"); if (ok(c)) cur = c; }
     }
     return cur;
 }
@@ -603,7 +622,7 @@ struct TextGen {
     Rng& g; std::vector<int> classes; unsigned b, t; size_t est = 60; int budget = 3000; int bigLeft = 2; bool allowCRinLiteral = false;
     uint32_t pickOf(int k) {
         static const std::vector<uint32_t> T[C_N] = { { 'a', 'Z', '0', ' ', '-', '?' }, { '<', '&' }, { '>' }, { '"', '\'' }, { ']' }, { 9 }, { 10 }, { 13 }, { 1, 8, 0xB, 0xC, 0x1B, 0x1F }, { 0 },
-            { 0x7F, 0x80, 0x84, 0x86, 0x9F }, { 0x85 }, { 0xA0, 0xE9, 0xFF, 0xD7 }, { 0x20AC, 0x4E2D, 0x3042, 0x416, 0x100, 0xFFFD, 0xD7FF, 0xE000, 0x2029 }, { 0x2028 }, { 0x10000, 0x1F600, 0x10FFFF, 0x20000 }, { 0xD800, 0xDBFF, 0xDC00, 0xDFFF }, { 0xFFFE, 0xFFFF } };
+            { 0x7F, 0x80, 0x84, 0x86, 0x9F }, { 0x85 }, { 0xA0, 0xE9, 0xFF, 0xD7 }, { 0x20AC, 0x4E2D, 0x3042, 0x416, 0x100, 0xFFFD, 0xD7FF, 0xE000, 0x2029 }, { 0x2028 }, { 0x10000, 0x1F600, 0x10FFFD, 0x20000 }, { 0xD800, 0xDBFF, 0xDC00, 0xDFFF }, { 0xFFFE, 0xFFFF } };
         return g.pick(T[k]);
     }
     void run(Json& a, uint32_t c, int64_t n) { if (n <= 0) return; if (n > budget) n = budget; if (n <= 0) return; Json o = Json::object(); o["c"] = (long long)c; o["n"] = (long long)n; a.push(o); budget -= (int)n; est += (size_t)n; }
@@ -711,6 +730,7 @@ struct C04 : public Driver {
     }
 
     // ---------------------------------------------------------------------------------------------------------------
+    std::set<std::string> tagsEmitted;
     std::set<std::string> minimisedAlready;   // (class|sig) this process has already minimised once, or that KNOWN_FINDINGS.txt lists
                                               // (the master does not gate those, so nobody would read the reduced script)
     void loadKnown() {
@@ -725,8 +745,11 @@ struct C04 : public Driver {
         fclose(f);
     }
 
-    void report(Result& res, Trace& tr, const Json& plan, const Script& s, const Probe& pr, const std::vector<Cfg>& involved, const std::string& family, bool wantClasses) {
-        Sig g = sigOf(s, pr, wantClasses); if (!g.any) return;   // cannot happen: the caller saw the finding
+    // returns the family-independent part of the signature ("" if nothing was reported)
+    std::string report(Result& res, Trace& tr, const Json& plan, const Script& s, const Probe& pr, const std::vector<Cfg>& involved, const std::string& family, bool wantClasses, const std::set<std::string>* suppress = nullptr) {
+        { FindingP f0 = probeOn(s, pr); if (!f0) return ""; if (f0->cls == "runaway-allocation" || f0->cls == "bad-free") wantClasses = false; }   // offsets matter there, not classes
+        Sig g = sigOf(s, pr, wantClasses); if (!g.any) return "";
+        if (suppress && suppress->count(g.str())) { res.count("pipeline-finding-already-shown-by-factory-product"); tr.ev("same-as-factory " + g.str()); return ""; }
         std::string sig = g.cls + ":" + family + ":" + g.ver + (wantClasses ? ":" + g.pairs : "") + (g.extra.empty() ? "" : ":" + g.extra);
         tr.ev("violation " + sig);
         Json sub = Json::object(); Json cf = Json::array(); for (auto& c : involved) cf.push(c.raw); sub["configs"] = cf;
@@ -734,11 +757,13 @@ struct C04 : public Driver {
         if (!plan.boolean("minimised") && !minimisedAlready.count(key)) {
             minimisedAlready.insert(key);
             bool pipeline = false; for (auto& c : involved) if (c.ser == "pipeline") pipeline = true;
-            Script mn = minimise(g.reduced, pr, g.str(), wantClasses, pipeline ? 80 : 250);
-            sub["events"] = eventsToJson(mn); sub["cdata_elems"] = cdataToJson(mn); sub["version"] = mn.version; sub["minimised"] = true;
-            FindingP fin = probeOn(mn, pr); if (fin) g.detail = fin->detail;
+            Script mn = minimise(g.reduced, pr, g.str(), wantClasses, pipeline ? 60 : 150);
+            Sig chk = sigOf(mn, pr, wantClasses);      // the reduced plan must carry the same signature when the master executes it
+            if (chk.any && chk.str() == g.str()) { sub["events"] = eventsToJson(mn); sub["cdata_elems"] = cdataToJson(mn); sub["version"] = mn.version; sub["minimised"] = true; g.detail = chk.detail; }
+            else res.count("in-process-minimisation-not-idempotent");
         }
         res.violateSub(g.cls, sig, g.detail + " [" + s.encoding + ", XML " + s.version + "]", sub);
+        return g.str();
     }
 
     void execute(const Json& plan, Result& res, Trace& tr) override {
@@ -751,7 +776,8 @@ struct C04 : public Driver {
         // reach: (encoding, class, construct)
         { std::map<std::string, uint32_t> byC;
           for (auto& f : ev.m.feed) { switch (f.k) { case F_SE: byC["name"] |= classMask(f.name); for (auto& a : f.attrs) { byC["name"] |= classMask(a.name); byC["attr"] |= classMask(a.value); } break; case F_CH: case F_IW: byC["text"] |= classMask(f.text); break; case F_CD: byC["cdata"] |= classMask(f.text); break; case F_CM: byC["comment"] |= classMask(f.text); break; case F_PI: byC["pi"] |= classMask(f.text); byC["name"] |= classMask(f.target); break; default: break; } }
-          for (auto& kv : byC) for (int k = 0; k < C_N; ++k) if (kv.second & (1u << k)) res.tag(s.encoding + "|" + CLS_NAME[k] + "|" + kv.first); }
+          // a tuple is reported the first time this process reaches it: the master unions the tags of all runs anyway
+          for (auto& kv : byC) for (int k = 0; k < C_N; ++k) if (kv.second & (1u << k)) { std::string t = s.encoding + "|" + CLS_NAME[k] + "|" + kv.first; if (tagsEmitted.insert(t).second) res.tag(t); } }
 
         // ---- fault-free configurations: run, trace, probes
         std::vector<size_t> plain, faulted; for (size_t i = 0; i < cfgs.size(); ++i) (cfgs[i].fault.kind.empty() ? plain : faulted).push_back(i);
@@ -772,6 +798,7 @@ struct C04 : public Driver {
         }
         // oracle 3: knob independence inside each group; then oracles 1/2 once per distinct output of a group
         std::map<std::string, std::vector<size_t>> groups; for (size_t i : plain) if (!ev.out(cfgs[i]).skipped) groups[cfgs[i].group()].push_back(i);
+        std::set<std::string> shownByFactory;
         for (auto& kv : groups) {
             const Cfg& first = cfgs[kv.second[0]]; std::vector<size_t> distinct = { kv.second[0] };
             for (size_t j = 1; j < kv.second.size(); ++j) {
@@ -783,7 +810,7 @@ struct C04 : public Driver {
             for (size_t i : distinct) {
                 const Cfg c = cfgs[i]; res.count("roundtrips_checked");
                 FindingP f = probeSingle(ev, c);
-                if (f) report(res, tr, plan, s, [c](Eval& e) { return probeSingle(e, c); }, { c }, ev.family(c), true);
+                if (f) { std::string k = report(res, tr, plan, s, [c](Eval& e) { return probeSingle(e, c); }, { c }, ev.family(c), true, c.ser == "pipeline" ? &shownByFactory : nullptr); if (c.ser == "factory" && !k.empty()) shownByFactory.insert(k); }
                 else if (!ev.out(c).threw) res.count(ev.repr.ok ? "outcome:roundtrip-ok" : "outcome:roundtrip-ok-unrepresentable-by-model");
             }
         }
@@ -804,6 +831,8 @@ struct C04 : public Driver {
             if (f) report(res, tr, plan, s, [c](Eval& e) { return probeFault(e, c); }, { c }, ev.family(c), false);
         }
         alarm(0);
+        if (getenv("C04_PROFILE")) fprintf(stderr, "PROF run=%llu us factory/legacy=%llu pipeline=%llu parse=%llu runs=%llu parses=%llu evals=%llu\n", (unsigned long long)res.run, (unsigned long long)g_nsRun / 1000, (unsigned long long)g_nsPipe / 1000, (unsigned long long)g_nsParse / 1000, (unsigned long long)g_serializerRuns, (unsigned long long)g_parses, (unsigned long long)g_evals);
+        g_nsRun = g_nsParse = g_nsPipe = 0;
         res.count("serializer_runs", (int64_t)g_serializerRuns); res.count("parses", (int64_t)g_parses); res.count("evals_for_signatures", (int64_t)g_evals);
         g_serializerRuns = g_parses = g_evals = 0;
     }
